@@ -67,7 +67,7 @@ func (o Opts) String() string {
 
 // Case is a self-contained load: files on disk, compose files in order, environment, options.
 type Case struct {
-	Files        map[string]string `json:"files"`         // relative path -> content
+	Files        map[string]string `json:"files"`          // relative path -> content
 	Dirs         []string          `json:"dirs,omitempty"` // empty directories to create
 	ComposeFiles []string          `json:"compose_files"`
 	Env          map[string]string `json:"env,omitempty"`
